@@ -4,6 +4,7 @@ import os
 import random
 import re
 import sys
+import time
 
 from vlib import coqrun
 from vlib.ctx import proof_gate
@@ -343,7 +344,7 @@ def run_cases(ctx, cases, tag, relation):
 
 
 # ----------------------------------------------------------------------------- grids
-def grid_shards(L, lo, hi, per=120):
+def grid_shards(L, lo, hi, per=20):
     """Shards covering indices [lo, hi) of length L in blocks of 1000 (+ one short block)."""
     out, i = [], lo
     while i < hi:
@@ -471,6 +472,7 @@ def run(ctx):
         return
     quick = ctx.tier == "quick"
     # embedded cases first (corpus includes the triggers of the listed findings)
+    t0 = time.time()
     cases = corpus() + gen_cases(rnd, ctx, 2500 if quick else 40000)
     for c in cases[:2] + cases[-2:]:
         ctx.sample(c)
@@ -480,11 +482,15 @@ def run(ctx):
     top = 5 if quick else 6
     for L in range(0, top + 1):
         shards += grid_shards(L, 0, 12 ** L)
-    run_grid(ctx, shards, "exhaustive_le_%d" % top, per_file=2 if quick else 1)
+    t1 = time.time()
+    run_grid(ctx, shards, "exhaustive_le_%d" % top, per_file=1 if quick else 4)
+    t2 = time.time()
     win = []
-    for L, n in ((6, 60), (7, 60), (8, 40)) if quick else ((7, 600), (8, 400), (9, 200)):
+    for L, n in ((6, 40), (7, 40), (8, 20)) if quick else ((7, 600), (8, 400), (9, 200)):
         win += windows(rnd, L, n)
-    run_grid(ctx, win, "windows", per_file=10 if quick else 40)
+    run_grid(ctx, win, "windows", per_file=8 if quick else 40)
+    ctx.cov["timing_s"] = dict(embedded_cases=round(t1 - t0, 1), exhaustive_grid=round(t2 - t1, 1),
+                               windows=round(time.time() - t2, 1))
     ctx.cov["exhaustive"] = True
     ctx.cov["exhaustive_bound"] = "all strings of length <= %d over the 12-symbol alphabet (%d strings)" % (
         top, sum(12 ** L for L in range(top + 1)))
